@@ -4,7 +4,6 @@ import (
 	"fmt"
 	"go/token"
 	"go/types"
-	"sort"
 	"strings"
 
 	"golang.org/x/tools/go/ssa"
@@ -120,49 +119,8 @@ func (x *Ctx) typeSwitchRule(r *core.Result, rs *core.RuleStat, name string, isM
 		fail("out", "no fresh result container is created", fn.Pos())
 		return
 	}
-	// type assertions on the element value
-	want := map[string]string{"string": "StdLibCompatibleString", "[]interface{}": "StdLibCompatibleSlice", "map[string]interface{}": "StdLibCompatibleMap"}
-	got := map[string]string{}
-	for _, b := range fn.Blocks {
-		for _, ins := range b.Instrs {
-			ta, isTA := ins.(*ssa.TypeAssert)
-			if !isTA {
-				continue
-			}
-			ts := types.TypeString(ta.AssertedType, nil)
-			ts = strings.ReplaceAll(ts, "any", "interface{}")
-			// the asserted value flows into a call of the matching helper
-			var bound ssa.Value = ta
-			if ta.CommaOk {
-				if ex := extractOfTA(ta, 0); ex != nil {
-					bound = ex
-				}
-			}
-			callee := ""
-			for _, ref := range *bound.Referrers() {
-				if c, isCall := ref.(*ssa.Call); isCall && c.Call.StaticCallee() != nil && len(c.Call.Args) == 1 && c.Call.Args[0] == bound {
-					callee = c.Call.StaticCallee().Name()
-				}
-			}
-			got[ts] = callee
-		}
-	}
-	var keys []string
-	for k := range want {
-		keys = append(keys, k)
-	}
-	sort.Strings(keys)
-	for _, k := range keys {
-		if got[k] != want[k] {
-			fail("case "+k, fmt.Sprintf("values of type %s are handled by %q, must be passed (the value bound by the case itself) to %s", k, got[k], want[k]), fn.Pos())
-		}
-	}
-	for k := range got {
-		if _, known := want[k]; !known {
-			fail("case "+k, "unexpected extra type case "+k, fn.Pos())
-		}
-	}
-	// stores into the result: every element store / map update targets `out`; values are helper results or the original value
+	// every store into the result stores the conversion of the element read at the same position / under the same key
+	cover := map[string]bool{}
 	nStores := 0
 	for _, b := range fn.Blocks {
 		for _, ins := range b.Instrs {
@@ -174,25 +132,78 @@ func (x *Ctx) typeSwitchRule(r *core.Result, rs *core.RuleStat, name string, isM
 				}
 				if ia.X != out {
 					fail("store-target", "a store goes to something other than the fresh result", t.Pos())
+					continue
 				}
 				nStores++
+				var subject ssa.Value
+				for _, bb := range fn.Blocks {
+					for _, i2 := range bb.Instrs {
+						if ld, isLd := i2.(*ssa.UnOp); isLd && ld.Op == token.MUL {
+							if sa, isSA := ld.X.(*ssa.IndexAddr); isSA && sa.X == ssa.Value(fn.Params[0]) && sa.Index == ia.Index {
+								subject = ld
+							}
+						}
+					}
+				}
+				if subject == nil {
+					fail("store-index", "a result element is stored at an index that is not the index of the element read", t.Pos())
+					continue
+				}
+				if msg := x.elemConv(t.Val, b, subject, cover, map[ssa.Value]bool{}, 0); msg != "" {
+					fail("store-value", msg, t.Pos())
+				}
 			case *ssa.MapUpdate:
 				if t.Map != out {
 					fail("store-target", "a map store goes to something other than the fresh result", t.Pos())
+					continue
 				}
 				nStores++
-				if isMap {
-					// key must be StdLibCompatibleString(original key)
-					kc, isCall := t.Key.(*ssa.Call)
-					if !isCall || kc.Call.StaticCallee() == nil || kc.Call.StaticCallee().Name() != "StdLibCompatibleString" {
-						fail("key", "a member is stored under a key that was not converted with StdLibCompatibleString", t.Pos())
+				// key must be StdLibCompatibleString(original key)
+				kc, isCall := t.Key.(*ssa.Call)
+				if !isCall || kc.Call.StaticCallee() == nil || kc.Call.StaticCallee().Name() != "StdLibCompatibleString" || !w.InLib(kc.Call.StaticCallee()) {
+					fail("key", "a member is stored under a key that was not converted with StdLibCompatibleString", t.Pos())
+					continue
+				}
+				var subject ssa.Value
+				origKey := kc.Call.Args[0]
+				if kx, isEx := origKey.(*ssa.Extract); isEx && kx.Index == 1 {
+					if nx, isNext := kx.Tuple.(*ssa.Next); isNext {
+						if rg, isRange := nx.Iter.(*ssa.Range); isRange && rg.X == ssa.Value(fn.Params[0]) {
+							for _, ref := range *nx.Referrers() {
+								if vx, isVx := ref.(*ssa.Extract); isVx && vx.Index == 2 {
+									subject = vx
+								}
+							}
+						}
 					}
+				}
+				if subject == nil {
+					// out[conv(k)] = conv(m[k])
+					for _, bb := range fn.Blocks {
+						for _, i2 := range bb.Instrs {
+							if lk, isLk := i2.(*ssa.Lookup); isLk && lk.X == ssa.Value(fn.Params[0]) && lk.Index == origKey && !lk.CommaOk {
+								subject = lk
+							}
+						}
+					}
+				}
+				if subject == nil {
+					fail("key-value", "the converted key is not the key of the member whose value is stored", t.Pos())
+					continue
+				}
+				if msg := x.elemConv(t.Value, b, subject, cover, map[ssa.Value]bool{}, 0); msg != "" {
+					fail("store-value", msg, t.Pos())
 				}
 			}
 		}
 	}
-	if nStores < 4 {
-		fail("stores", fmt.Sprintf("only %d stores into the result (expected one per type case and the default)", nStores), fn.Pos())
+	if nStores == 0 {
+		fail("stores", "nothing is stored into the result", fn.Pos())
+	}
+	for _, k := range []string{"string", "[]interface{}", "map[string]interface{}", "default"} {
+		if !cover[k] {
+			fail("case "+k, "no conversion path for values of kind "+k+" (string -> StdLibCompatibleString, []interface{} -> StdLibCompatibleSlice, map[string]interface{} -> StdLibCompatibleMap, anything else copied)", fn.Pos())
+		}
 	}
 	// result is the fresh container
 	for _, b := range fn.Blocks {
@@ -202,7 +213,7 @@ func (x *Ctx) typeSwitchRule(r *core.Result, rs *core.RuleStat, name string, isM
 	}
 	if ok {
 		rs.OK(1)
-		rs.Sample(name + ": cases string / []interface{} / map[string]interface{} -> matching helper on the bound value; default copies; fresh result")
+		rs.Sample(name + ": every stored value is the conversion of the element read (string / []interface{} / map[string]interface{} -> matching helper on the asserted value, anything else copied; inline or through a helper whose returns satisfy the same rule); fresh result")
 	}
 }
 
@@ -377,4 +388,133 @@ func (x *Ctx) destinationRulesFor(r *core.Result, rs *core.RuleStat, names ...st
 			}
 		}
 	}
+}
+
+
+var stdlibConv = map[string]string{"string": "StdLibCompatibleString", "[]interface{}": "StdLibCompatibleSlice", "map[string]interface{}": "StdLibCompatibleMap"}
+
+// elemConv: the value o, as seen at the end of block at, is the stdlib-compatible conversion of the element s:
+//   - MakeInterface(H(v)) where v is s asserted to T, H is the helper for T, under the assertion having succeeded;
+//   - s itself, where the assertions to all three types have failed;
+//   - G(s) for a library function G all of whose returns satisfy this rule for its parameter;
+//   - a phi of such values (each judged at the predecessor it comes from).
+//
+// cover collects which kinds have a conversion path.
+func (x *Ctx) elemConv(o ssa.Value, at *ssa.BasicBlock, s ssa.Value, cover map[string]bool, seen map[ssa.Value]bool, depth int) string {
+	if depth > 3 {
+		return "conversion helpers nest too deeply to follow"
+	}
+	switch t := o.(type) {
+	case *ssa.Phi:
+		if seen[t] {
+			return ""
+		}
+		seen[t] = true
+		for i, e := range t.Edges {
+			if msg := x.elemConv(e, t.Block().Preds[i], s, cover, seen, depth); msg != "" {
+				return msg
+			}
+		}
+		return ""
+	case *ssa.MakeInterface:
+		c, ok := t.X.(*ssa.Call)
+		if !ok || c.Call.StaticCallee() == nil || len(c.Call.Args) != 1 {
+			return "a stored value is not the result of a conversion helper applied to the element"
+		}
+		bound := c.Call.Args[0]
+		var ta *ssa.TypeAssert
+		if ex, isEx := bound.(*ssa.Extract); isEx && ex.Index == 0 {
+			ta, _ = ex.Tuple.(*ssa.TypeAssert)
+		} else {
+			ta, _ = bound.(*ssa.TypeAssert)
+		}
+		if ta == nil || ta.X != s {
+			return "a conversion helper is applied to something other than the element asserted to its type"
+		}
+		ts := strings.ReplaceAll(types.TypeString(ta.AssertedType, nil), "any", "interface{}")
+		want, known := stdlibConv[ts]
+		if !known {
+			return "unexpected type case " + ts
+		}
+		if c.Call.StaticCallee().Name() != want || !x.W.InLib(c.Call.StaticCallee()) {
+			return fmt.Sprintf("values of type %s are converted by %s, must be %s", ts, c.Call.StaticCallee().Name(), want)
+		}
+		if ta.CommaOk {
+			tb, _ := assertBranches(ta)
+			if tb == nil || !(tb == c.Block() || tb.Dominates(c.Block())) {
+				return "a conversion is applied without the type assertion having succeeded"
+			}
+		}
+		cover[ts] = true
+		return ""
+	case *ssa.Call:
+		g := t.Call.StaticCallee()
+		if g == nil || !x.W.InLib(g) || len(g.Blocks) == 0 || len(t.Call.Args) != 1 || t.Call.Args[0] != s || len(g.Params) != 1 {
+			return "a stored value is not a conversion of the element read"
+		}
+		sub := map[string]bool{}
+		n := 0
+		for _, b := range g.Blocks {
+			if ret, ok := b.Instrs[len(b.Instrs)-1].(*ssa.Return); ok {
+				if len(ret.Results) != 1 {
+					return g.Name() + " does not return a single value"
+				}
+				n++
+				if msg := x.elemConv(ret.Results[0], b, g.Params[0], sub, map[ssa.Value]bool{}, depth+1); msg != "" {
+					return "in " + g.Name() + ": " + msg
+				}
+			}
+		}
+		if n == 0 {
+			return g.Name() + " never returns"
+		}
+		for k := range sub {
+			cover[k] = true
+		}
+		return ""
+	}
+	if o == s {
+		// the unconverted copy is only allowed where the three assertions have failed
+		for ts := range stdlibConv {
+			okT := false
+			for _, ref := range *s.Referrers() {
+				ta, isTA := ref.(*ssa.TypeAssert)
+				if !isTA || !ta.CommaOk || strings.ReplaceAll(types.TypeString(ta.AssertedType, nil), "any", "interface{}") != ts {
+					continue
+				}
+				if _, fb := assertBranches(ta); fb != nil && (fb == at || fb.Dominates(at)) {
+					okT = true
+				}
+			}
+			if !okT {
+				return "the element is copied unconverted on a path where it may be a " + ts
+			}
+		}
+		cover["default"] = true
+		return ""
+	}
+	return "a stored value is not a conversion of the element read"
+}
+
+// assertBranches: for `v, ok := x.(T); if ok`, the blocks taken when the assertion succeeded / failed.
+func assertBranches(ta *ssa.TypeAssert) (tb, fb *ssa.BasicBlock) {
+	for _, ref := range *ta.Referrers() {
+		ex, ok := ref.(*ssa.Extract)
+		if !ok || ex.Index != 1 {
+			continue
+		}
+		for _, r2 := range *ex.Referrers() {
+			if iff, ok := r2.(*ssa.If); ok {
+				b := iff.Block()
+				// only unambiguous when the successors are not shared with another route
+				if len(b.Succs[0].Preds) == 1 {
+					tb = b.Succs[0]
+				}
+				if len(b.Succs[1].Preds) == 1 {
+					fb = b.Succs[1]
+				}
+			}
+		}
+	}
+	return
 }
